@@ -314,6 +314,17 @@ CHECKS["C04"]["text"] += (" The event-metric glue — util._fast_hit_windows, ut
                           "event lists, the hit dict + the proved Hopcroft-Karp transliteration, the empty-input returns, Python "
                           "float division) and re-states the C04 / C05 / C07 statements on them; suite gen_evglue runs all six "
                           "against the real functions.")
+CHECKS["C04"]["text"] += (" tempo.validate / tempo.detection and the transcription P/R/F functions (onset_, offset_precision_recall_f1, "
+                          "precision_recall_f1_overlap) are regenerated as well (parts `evglue`, `trmatch`) and proved equal to the "
+                          "definitions (Props/C04_GenGlue.lean, C04_GenTr.lean).")
+CHECKS["C05"]["text"] += (" util._fast_hit_windows / util.match_events and transcription.match_note_onsets / match_note_offsets / "
+                          "match_notes are REGENERATED from the source on every run (translator parts `evglue`, `trmatch`); "
+                          "Props/C05_GenGlue.lean and C05_GenTr.lean prove the translated definitions equal to the hand model and "
+                          "state C05 on them: the hit pairs are exactly the tolerance predicate, every returned pair satisfies all "
+                          "enabled criteria, no note is used twice, no valid pairing is larger; suites gen_evglue.util and "
+                          "gen_trmatch run them against the real functions.")
+CHECKS["C07"]["text"] += (" Props/C07_GenGlue.lean states the widening theorems on the REGENERATED onset.f_measure, beat.f_measure, "
+                          "segment.detection and tempo.detection (translator part `evglue`).")
 CHECKS["C04"]["text"] += (" The documented default parameter values are proved (decide) to be the defaults of the signature "
                           "table regenerated from the source (Props/C04_Defaults.lean).")
 for _p in ("C09", "C10"):
